@@ -36,6 +36,8 @@ pub(super) struct C40LikePlan<T: ContextInformation, U: CharsetInfo> {
     unbeatable_reads: usize,
     ch: u8,
     two_digit_ascii_end: bool,
+    /// Codewords of the two digit ASCII end (already booked in `ctx`).
+    two_digit_ascii_end_size: u8,
     cost: Frac,
     dummy: PhantomData<U>,
 }
@@ -49,6 +51,7 @@ impl<T: ContextInformation, U: CharsetInfo> C40LikePlan<T, U> {
             unbeatable_reads: 0,
             cost: 0.into(),
             two_digit_ascii_end: false,
+            two_digit_ascii_end_size: 0,
             dummy: PhantomData,
         }
     }
@@ -118,9 +121,12 @@ impl<T: ContextInformation, U: CharsetInfo> Plan for C40LikePlan<T, U> {
                 // and final unlatch to continue with padding
                 3
             }
+        } else if self.values == 1 && self.two_digit_ascii_end {
+            // the codewords were already written to `ctx` in step(), asking
+            // it for the space left would look at the wrong position
+            self.two_digit_ascii_end_size as usize
         } else if self.values == 1 {
             let space_left = self.ctx.symbol_size_left(1).unwrap_or(0);
-            // this also includes the `self.two_digit_ascii_end` case...
             let ascii_size = ascii::encoding_size(&[self.ch]);
             if space_left == 0 {
                 if ascii_size == 1 {
@@ -151,10 +157,12 @@ impl<T: ContextInformation, U: CharsetInfo> Plan for C40LikePlan<T, U> {
                     // UNLATCH + ASCII(two digits)
                     self.unbeatable_reads = 2;
                     self.ctx.write(2);
+                    self.two_digit_ascii_end_size = 2;
                 } else if space_left == 0 {
                     // implicit UNLATCH, ASCII(two digits);
                     self.unbeatable_reads = 2;
                     self.ctx.write(1);
+                    self.two_digit_ascii_end_size = 1;
                 }
             }
             if !self.two_digit_ascii_end {
